@@ -9,6 +9,8 @@ use vcommon::v::{Got, OUTSIDE, V};
 pub struct Base {
     pub ptr: usize,
     pub len: usize,
+    /// content mode: slices are mirrored by their bytes (for values that do not come from one buffer)
+    pub content: bool,
 }
 
 impl Base {
@@ -16,10 +18,21 @@ impl Base {
         Base {
             ptr: b.as_ptr() as usize,
             len: b.len(),
+            content: false,
+        }
+    }
+    pub fn content() -> Base {
+        Base {
+            ptr: 0,
+            len: 0,
+            content: true,
         }
     }
     /// mirror of a slice: position inside the base buffer, or OUTSIDE
     pub fn s(&self, sl: &[u8]) -> V {
+        if self.content {
+            return V::B(sl.to_vec());
+        }
         if sl.is_empty() {
             return V::S(0, 0);
         }
